@@ -202,9 +202,18 @@ int main(int argc, char **argv) {
         for (const char *input : {"", "A"}) {
           uint32_t words = (d + 3) / 4;
           for (uint32_t w = 0; w < words; w++) { uint32_t v = 0; for (int l = 0; l < 4; l++) if (w * 4 + l < (uint32_t)d) v |= (uint32_t)(uint8_t)seq[w * 4 + l] << (8 * l); T.poke(w, v); }
-          // start state: registers as reset leaves them
-          T.rtl.top->i_rst = 1; T.rtl.low(); T.rtl.top->i_rst = 0; T.rtl.low();
-          T.setRegs(0, 0, 0, 0);
+          // start state: the registers hold arbitrary values (as at power-on), then reset is applied the way the testbench applies it
+          // (asserted over rising clock edges, then released); the RTL must come out of it with pc=areg=breg=oreg=0 like the simulator starts
+          T.rtl.plant(K[(i * 7 + 1) % nk] & 0x1FFFFF, K[(i * 3 + 2) % nk], K[(i * 5 + 3) % nk], K[(i + 4) % nk] & ~0xFu);
+          T.rtl.settle();
+          T.rtl.top->i_rst = 1; T.rtl.high(); T.rtl.low(); T.rtl.high(); T.rtl.low(); T.rtl.top->i_rst = 0; T.rtl.low();
+          if (T.rtl.pc() || T.rtl.a() || T.rtl.b() || T.rtl.o()) {
+            st.violation("reset:registers-not-cleared", i, Obj().kv("family", "seq").kv("bytes_hex", hexs(seq)).kv("what", "after reset rtl{" + simh::regs(T.rtl.pc(), T.rtl.a(), T.rtl.b(), T.rtl.o()) + "} but the simulator starts from all zeros").str());
+            T.rtl.plant(0, 0, 0, 0);
+          }
+          st.add("seq_resets_from_dirty_registers");
+          { uint32_t sp = T.ref.pc; (void)sp; }
+          T.ref.pc = T.ref.areg = T.ref.breg = T.ref.oreg = 0; *T.sim.v.pc = *T.sim.v.areg = *T.sim.v.breg = *T.sim.v.oreg = 0;
           T.env = Env(); T.env.in = input; T.sim.setInput(input);
           size_t mark0 = T.ref.wlog.size(); std::string res; int steps = 0; uint8_t lastByte = 0;
           while (steps < 24 && !T.env.exited) {
